@@ -150,10 +150,30 @@ def in_universe(v):
     return False
 
 
+def _akey(a):
+    return repr(values.canon_atom(a))
+
+
+def to_coq19(v):
+    """values.to_coq with set members in a canonical order (the distance does not depend on iteration order; the
+    positions of set members used by the structured delta are indices into this order)"""
+    if isinstance(v, list):
+        return "(VList [%s])" % "; ".join(to_coq19(x) for x in v)
+    if isinstance(v, tuple):
+        return "(VTuple [%s])" % "; ".join(to_coq19(x) for x in v)
+    if isinstance(v, dict):
+        return "(VDict [%s])" % "; ".join("(%s, %s)" % (values.atom_to_coq(k), to_coq19(x)) for k, x in v.items())
+    if isinstance(v, frozenset):
+        return "(VFrozen [%s])" % "; ".join(values.atom_to_coq(x) for x in sorted(v, key=_akey))
+    if isinstance(v, set):
+        return "(VSet [%s])" % "; ".join(values.atom_to_coq(x) for x in sorted(v, key=_akey))
+    return "(VAtom %s)" % values.atom_to_coq(v)
+
+
 def coq_root(v):
     if isinstance(v, SCALAR_TYPES) and not (isinstance(v, (bool, int)) or (isinstance(v, float) and in_universe(v))):
         return "(RScalar %s)" % coq_scalar(v)
-    return "(RVal %s)" % values.to_coq(v)
+    return "(RVal %s)" % to_coq19(v)
 
 
 def root_ok(v):
@@ -191,6 +211,11 @@ def coq_dv(item, ids):
         return "DNum"
     if isinstance(item, (str, bytes)):
         return "DStr"
+    if isinstance(item, (set, frozenset)):
+        try:
+            item = sorted(item, key=_akey)
+        except Exception:
+            pass
     if isinstance(item, Iterable):
         return "(DSeq [%s])" % "; ".join(coq_dv(x, ids) for x in item)
     if isinstance(item, type):
@@ -198,6 +223,147 @@ def coq_dv(item, ids):
     if hasattr(item, "__dict__"):
         raise TypeError("object with __dict__ in a delta dict: outside the model")
     return "DNone"
+
+
+# ---------------------------------------------------------------------------
+# the delta-view dict as positions in t1 / t2 (sdelta of DistModel.v)
+# ---------------------------------------------------------------------------
+
+class NotStructured(Exception):
+    pass
+
+
+def _walk(t, elems):
+    """key/index elements (deepdiff.parse_path) -> (child-index path, sub-value)"""
+    ip = []
+    for el in elems:
+        if isinstance(t, (list, tuple)):
+            if isinstance(el, bool) or not isinstance(el, int) or not (0 <= el < len(t)):
+                raise NotStructured("index %r" % (el,))
+            ip.append(el)
+            t = t[el]
+        elif isinstance(t, dict):
+            keys = list(t.keys())
+            js = [j for j, k in enumerate(keys) if type(k) is type(el) and k == el] or [j for j, k in enumerate(keys) if k == el]
+            if not js:
+                raise NotStructured("key %r" % (el,))
+            ip.append(js[0])
+            t = t[keys[js[0]]]
+        else:
+            raise NotStructured("path goes through %r" % (type(t).__name__,))
+    return ip, t
+
+
+def _ipath(path, t):
+    from deepdiff.path import parse_path
+    try:
+        elems = parse_path(path)
+    except Exception as e:  # noqa
+        raise NotStructured("parse_path(%r): %r" % (path, e))
+    return _walk(t, elems)
+
+
+def coq_ipath(ip):
+    return "[" + "; ".join("%d%%nat" % i for i in ip) + "]"
+
+
+def t2_parent_paths(dd):
+    """In ignore_order mode the delta names added things by the t1 path of the paired parent, while they live in t2.
+    From the result tree (as it is when the distance is computed): where each added item / set / index sits in t2."""
+    m = {}
+    try:
+        for lv in dd.tree.get("iterable_item_added", []):
+            path, param, _ = lv.path(force="fake", get_parent_too=True)
+            m[("idx", path, param)] = lv.up.path(use_t2=True, force="fake")
+            m[("item", "iterable_item_added", lv.path(force="fake"))] = lv.path(use_t2=True, force="fake")
+        for lv in dd.tree.get("dictionary_item_added", []):
+            m[("item", "dictionary_item_added", lv.path(force="fake"))] = lv.path(use_t2=True, force="fake")
+        for lv in dd.tree.get("set_item_added", []):
+            m[("set", lv.up.path(force="fake"))] = lv.up.path(use_t2=True, force="fake")
+    except Exception:
+        pass
+    return m
+
+
+def sdelta_of(delta, t1, t2, ids, t2paths=None):
+    """-> (Coq term of type sdelta, guard as computed independently in Python).  Raises NotStructured for a delta
+    with a report kind / entry shape the structured form does not cover."""
+    blocks = []
+    guard = True
+    for cat, body in delta.items():
+        if not isinstance(cat, str):
+            raise NotStructured("category %r" % (cat,))
+        if cat.startswith("_"):
+            blocks.append("BSkipped %s %s" % (core.coq_pystr(cat), coq_dv(body, ids)))
+            continue
+        if not isinstance(body, Mapping):
+            raise NotStructured("body of %s" % cat)
+        if cat in ("iterable_items_added_at_indexes", "iterable_items_removed_at_indexes"):
+            side2 = cat == "iterable_items_added_at_indexes"
+            es = []
+            for path, items in body.items():
+                if not isinstance(items, Mapping):
+                    raise NotStructured("indexes of a non-sequence")
+                where = path
+                if side2 and t2paths:
+                    alt = set(t2paths.get(("idx", path, i), path) for i in items)
+                    if len(alt) != 1:
+                        raise NotStructured("items added under one t1 path come from different t2 lists")
+                    where = alt.pop()
+                ip, sub = _ipath(where, t2 if side2 else t1)
+                if not isinstance(sub, (list, tuple)):
+                    raise NotStructured("indexes of a non-sequence")
+                es.append("(%s, %s, [%s])" % (core.coq_pystr(path), coq_ipath(ip),
+                                             "; ".join("(%d%%nat, %d%%nat)" % (i, ids.tag(v)) for i, v in items.items())))
+            blocks.append("BIdx %s [%s]" % (core.coq_bool(side2), "; ".join(es)))
+            continue
+        es = []
+        for path, e in body.items():
+            if not isinstance(path, str):
+                raise NotStructured("path key %r" % (path,))
+            if cat == "type_changes":
+                ks = list(e.keys())
+                wnp, wv = "new_path" in ks, "new_value" in ks
+                if ks != ["old_type", "new_type"] + (["new_path"] if wnp else []) + (["new_value"] if wv else []):
+                    raise NotStructured("type_changes entry keys %r" % (ks,))
+                p1, old = _ipath(path, t1)
+                p2, new = _ipath(e["new_path"] if wnp else path, t2)
+                es.append("ETc %s %s %s %s %s" % (core.coq_pystr(path), coq_ipath(p1), coq_ipath(p2), core.coq_bool(wnp), core.coq_bool(wv)))
+                try:
+                    guard = guard and (2 + (ilen(new) if wv else 0) <= icount(old) + icount(new))
+                except TypeError:
+                    pass
+            elif cat == "values_changed":
+                ks = list(e.keys())
+                wnp = "new_path" in ks
+                if ks != ["new_value"] + (["new_path"] if wnp else []):
+                    raise NotStructured("values_changed entry keys %r" % (ks,))
+                p1, _o = _ipath(path, t1)
+                p2, _n = _ipath(e["new_path"] if wnp else path, t2)
+                es.append("EVc %s %s %s %s" % (core.coq_pystr(path), coq_ipath(p1), coq_ipath(p2), core.coq_bool(wnp)))
+            elif cat in ("dictionary_item_added", "iterable_item_added", "dictionary_item_removed", "iterable_item_removed"):
+                side2 = cat.endswith("added")
+                where = (t2paths or {}).get(("item", cat, path), path) if side2 else path
+                ip, _v = _ipath(where, t2 if side2 else t1)
+                es.append("EAt %s %s %s" % (core.coq_bool(side2), core.coq_pystr(path), coq_ipath(ip)))
+            elif cat in ("set_item_added", "set_item_removed"):
+                side2 = cat.endswith("added")
+                where = (t2paths or {}).get(("set", path), path) if side2 else path
+                ip, st = _ipath(where, t2 if side2 else t1)
+                if not isinstance(st, (set, frozenset)) or not isinstance(e, (set, frozenset)):
+                    raise NotStructured("set items of a non-set")
+                order = sorted(st, key=_akey)
+                ms = []
+                for x in sorted(e, key=_akey):
+                    js = [j for j, y in enumerate(order) if type(y) is type(x) and y == x]
+                    if not js:
+                        raise NotStructured("set member %r" % (x,))
+                    ms.append(js[0])
+                es.append("ESet %s %s %s [%s]" % (core.coq_bool(side2), core.coq_pystr(path), coq_ipath(ip), "; ".join("%d%%nat" % j for j in ms)))
+            else:
+                raise NotStructured("report kind %s" % cat)
+        blocks.append("BPlain %s [%s]" % (core.coq_pystr(cat), "; ".join(es)))
+    return "[" + "; ".join(blocks) + "]", guard
 
 
 # ---------------------------------------------------------------------------
@@ -540,6 +706,7 @@ class Recorder:
             try:
                 item = dict(self_) if self_.view == "delta" else self_._to_delta_dict(report_repetition_required=False)
                 r["delta"] = item
+                r["t2paths"] = t2_parent_paths(self_)     # now: the tree is rewritten later (add + remove -> value change)
             except Exception as e:  # noqa
                 r["delta_error"] = repr(e)
             rec.records.append(r)
@@ -589,6 +756,29 @@ def gen_pairs(ctx):
         else:
             s = values.gen_atom(rng, alias=True)
             out.append(((v, s) if rng.random() < 0.5 else (s, v)) + ("scalar_vs_any",))
+    # several insertions / deletions in one list (difflib opcodes), and lists of containers re-ordered and edited
+    # (pairing in ignore_order mode)
+    for _ in range(600 if ctx.thorough else 90):
+        base = [values.gen_value(rng, depth=rng.choice([0, 0, 1]), width=3) for _ in range(rng.randint(3, 8))]
+        new = copy.deepcopy(base)
+        for _k in range(rng.randint(2, 4)):
+            if new and rng.random() < 0.4:
+                del new[rng.randrange(len(new))]
+            else:
+                new.insert(rng.randint(0, len(new)), values.gen_value(rng, depth=rng.choice([0, 0, 1]), width=2))
+        if rng.random() < 0.3:
+            base, new = {"k": base, "z": 1}, {"k": new, "z": 1}
+        out.append((base, new, "multi_edit_list"))
+    for _ in range(600 if ctx.thorough else 90):
+        base = [values.gen_value(rng, depth=2, width=3, kinds="LDT") for _ in range(rng.randint(2, 5))]
+        new = copy.deepcopy(base)
+        rng.shuffle(new)
+        for i in range(len(new)):
+            if rng.random() < 0.6:
+                new[i], _kind = values.edit(rng, new[i])
+        if rng.random() < 0.3 and new:
+            new.append(copy.deepcopy(rng.choice(new)))
+        out.append((base, new, "shuffled_containers"))
     atoms = [None, True, False, 0, 1, -1, 2.5, 0.5, "", "a", b"", b"a", Decimal("1"), D(2020, 1, 1), DT(2020, 1, 1), TD(1), T(1), [], {}, (), set(), [None], [""], {"a": None}]
     for a in atoms:
         for b in atoms:
@@ -678,6 +868,7 @@ def rough_part(ctx):
     rec.install()
     ctx.note("recorder_installed", rec.installed)
     cases = []
+    sd_cases = []
     seen_keys = set()
     try:
         for (t1, t2, how) in gen_pairs(ctx):
@@ -730,6 +921,21 @@ def rough_part(ctx):
                     if key in seen_keys:
                         continue
                     seen_keys.add(key)
+                    if in_universe(r["t1"]) and in_universe(r["t2"]) and res[0] == "ok":
+                        try:
+                            ids2 = _Ids()
+                            gen = coq_dv(r["delta"], ids2)
+                            sdt, guard = sdelta_of(r["delta"], r["t1"], r["t2"], ids2, r.get("t2paths"))
+                            sd_cases.append(("sd_check %s %s %s %s" % (to_coq19(r["t1"]), to_coq19(r["t2"]), sdt, gen), [True, True, bool(guard)],
+                                             {"t1": repr(r["t1"]), "t2": repr(r["t2"]), "config": cfg, "delta": repr(r["delta"])[:600]}))
+                            ctx.count("structured_delta:" + ("inside_guard" if guard else "outside_guard"))
+                            x = res[1]
+                            if guard and isinstance(x, (int, float)) and not isinstance(x, bool) and x > 1:
+                                ctx.break_("correspondence", {"name": "rough_range_partial", "t1": repr(r["t1"]), "t2": repr(r["t2"]),
+                                                              "meaning": "inside the guard of C19_rough_range_partial but the implementation reports %r" % (x,)})
+                        except NotStructured as e:
+                            ctx.count("structured_delta:not_structured")
+                            ctx.note("not_structured_example", str(e)[:200])
                     exp = obs_exc(res[1]) if res[0] == "exc" else obs_rough(res[1])
                     cases.append((term, exp, {"t1": repr(r["t1"]), "t2": repr(r["t2"]), "config": cfg, "root_call": r["root"],
                                               "impl": repr(res[1]), "delta": repr(r["delta"])[:600]}))
@@ -745,6 +951,7 @@ def rough_part(ctx):
     finally:
         rec.uninstall()
     ctx.coq_cases("rough", HEADER, cases, shard=150, label="rough_distance")
+    ctx.coq_cases("sdelta", HEADER, sd_cases, shard=150, label="delta_as_positions")
 
 
 # ---------------------------------------------------------------------------
@@ -948,6 +1155,27 @@ def m_equal_numbers_of_different_type(case):
     return isinstance(t1, num) and isinstance(t2, num) and type(t1) is not type(t2) and t1 == t2
 
 
+def m_opcodes_hide_operations(case):
+    """ordered lists with more than one difflib change: the delta carries the insertions / deletions in
+    '_iterable_opcodes', a key the operation count skips, so they cost nothing"""
+    if case.get("kind") != "deep_distance" or "exception" in case or "diff" not in case:
+        return False
+    from deepdiff import DeepDiff
+    t1, t2 = _ev(case["t1"]), _ev(case["t2"])
+    rec = Recorder()
+    rec.install()
+    try:
+        d = DeepDiff(t1, t2, get_deep_distance=True)
+    finally:
+        rec.uninstall()
+    roots = [r for r in rec.records if r.get("root") and "delta" in r]
+    # the delta as the distance saw it (the result tree is rewritten afterwards: add + remove -> value change)
+    delta = roots[-1]["delta"] if roots else d._to_delta_dict(report_repetition_required=False)
+    if not delta.get("_iterable_opcodes"):
+        return False
+    return ilen({k: v for k, v in delta.items() if not k.startswith("_")}) == 0
+
+
 def m_item_length_crash(case):
     if case.get("kind") != "deep_distance" or case.get("exception") not in ("AttributeError", "TypeError"):
         return False
@@ -988,6 +1216,7 @@ MATCHERS = {
     "C19-K21-item-length-crash-on-keys": m_item_length_crash,
     "C19-K22-numpy-zero": m_numpy_zero,
     "C19-K23-zero-for-equal-numbers-of-different-type": m_equal_numbers_of_different_type,
+    "C19-K24-opcodes-hide-operations": m_opcodes_hide_operations,
 }
 
 
@@ -1007,6 +1236,7 @@ def witnesses(ctx):
         ("C19_numbers_total_refuted (ZeroDivisionError)", lambda: isinstance(call(_get_numbers_distance, 1, 2, 0.0)[1], ZeroDivisionError)),
         ("C19_positive_if_nonempty_refuted", lambda: DeepDiff([1], [1, None], get_deep_distance=True).get("deep_distance", 0) == 0
          and "iterable_item_added" in DeepDiff([1], [1, None])),
+        ("K24 (operations hidden in _iterable_opcodes)", lambda: DeepDiff([1, 2, 3, 5, 6], [1, 2, 4, 3, 5, 6, 7], get_deep_distance=True).get("deep_distance", 0) == 0),
         ("C19_time_zero_refuted", lambda: get_numeric_types_distance(datetime.time(0, 0, 0, 1), datetime.time(0, 0, 0, 2), 1.0) == 0),
     ]
     replayed = []
